@@ -33,7 +33,7 @@ class Run:
                  't_end', 'post', 'post_sched', 'sd_value', 'pending_at_return',
                  'drain_idle', 'loop_stats', 'choices', 'seq_returned',
                  'seq_shutdown', 'seq_drained', 'harness_error', 'events',
-                 'polls', 'instants', 'post2')
+                 'polls', 'instants', 'post2', 'seq_rerun')
 
 
 def default_knobs(seed=0):
@@ -61,7 +61,8 @@ def poll_nodes(ctx, top):
     return snap
 
 
-def run_spec(spec, knobs, choices=None, poll=True, drain_virtual=40.0):
+def run_spec(spec, knobs, choices=None, poll=True, drain_virtual=40.0,
+             attrs2=None):
     """
     spec: the top-level sched dict; knobs: see default_knobs();
     choices: None (seeded from knobs['sched_seed']) or a list to replay.
@@ -91,6 +92,7 @@ def run_spec(spec, knobs, choices=None, poll=True, drain_virtual=40.0):
     run.post, run.post_sched, run.sd_value = {}, {}, None
     run.pending_at_return, run.drain_idle = [], None
     run.seq_returned = run.seq_shutdown = run.seq_drained = None
+    run.seq_rerun = None
     try:
         with contextlib.redirect_stdout(_NULL):
             top = S.build(spec, ctx)
@@ -111,6 +113,25 @@ def run_spec(spec, knobs, choices=None, poll=True, drain_virtual=40.0):
                 noise = loop.create_task(ticker(knobs["noise"]))
                 ctx.tasks.remove(noise)
             try:
+                if attrs2 is not None:
+                    # a first run of the same objects; then the documented
+                    # attributes are re-assigned and the tree is run again:
+                    # only that second run is judged
+                    try:
+                        top.run()
+                    except (SimDeadlock, SimLivelock, SimHorizon):
+                        raise
+                    except Exception:                   # pylint: disable=W0703
+                        pass
+                    ctx.log('mark', 'top', 'rerun')
+                    run.seq_rerun = ctx.seq
+                    for nid, attrs in attrs2.items():
+                        node = ctx.nodes.get(nid)
+                        if node is not None:
+                            node.jobs_window = attrs['window']
+                            node.timeout = attrs['timeout']
+                    run.t_begin = loop._now
+                    loop.horizon = loop._now + S.horizon(spec)
                 if knobs["entry"] == "run":
                     run.value = top.run()
                 else:
